@@ -1,7 +1,9 @@
 """Properties decided by two engines: the library-level connection state machine (server_family) and the
 reference server (ref_family). Both parts run; coverage is merged, any violation of either part counts."""
 from vf import *
-import server_family, ref_family
+import server_family, ref_family, lifecycle_family
+
+PARTS = {"C07": (server_family, ref_family), "C20": (server_family, lifecycle_family), "C14": (ref_family, lifecycle_family)}
 
 
 def merge(a, b):
@@ -12,7 +14,7 @@ def merge(a, b):
         elif k == "samples":
             out[k] = out.get(k, []) + v
         elif k == "rule":
-            out[k] = "library level: " + out.get(k, "") + " || reference server: " + v
+            out[k] = "part 1: " + out.get(k, "") + " || part 2: " + v
         elif k in out and isinstance(v, list):
             out[k] = out[k] + v
         else:
@@ -22,12 +24,17 @@ def merge(a, b):
 
 
 def run(ctx, prop):
-    c1, a1, f1 = server_family.collect(ctx, prop)
-    c2, a2, f2 = ref_family.collect(ctx, prop)
-    return conclude(ctx, "model_checking", merge(c1, c2), a1 + a2, f1 + f2)
+    m1, m2 = PARTS[prop]
+    c1, a1, f1 = m1.collect(ctx, prop)
+    c2, a2, f2 = m2.collect(ctx, prop)
+    level = "exploration" if prop == "C14" else "model_checking"
+    return conclude(ctx, level, merge(c1, c2), a1 + a2, f1 + f2)
 
 
 def replay(ctx, prop, obj):
-    if obj.get("kind") == "ref":
+    k = obj.get("kind")
+    if k == "ref":
         return ref_family.replay(ctx, prop, obj)
+    if k == "life":
+        return lifecycle_family.replay(ctx, prop, obj)
     return server_family.replay(ctx, prop, obj)
